@@ -191,11 +191,27 @@ class BaseOverlay:
             else:
                 collection = curr.plus(handlers)
             self.reset = HandlerCollection.current.set(collection)
+            self.collection = collection
             return collection
 
     def __exit__(self, typ, exc, tb):
         if self.handlers:
-            HandlerCollection.current.reset(self.reset)
+            curr = HandlerCollection.current.get()
+            if curr is self.collection:
+                # Properly nested: restore what was there before
+                HandlerCollection.current.reset(self.reset)
+            else:
+                # Overlays were exited out of order (e.g. global probes
+                # deactivated in activation order). Only remove our own
+                # handlers from whatever is current now, so that the
+                # others keep working and ours do not come back later.
+                pairs = list(curr.handler_pairs) if curr else []
+                for handler in self.handlers:
+                    for i in range(len(pairs) - 1, -1, -1):
+                        if pairs[i][1] is handler:
+                            del pairs[i]
+                            break
+                HandlerCollection.current.set(HandlerCollection(pairs))
 
 
 class Overlay(BaseOverlay):
